@@ -11,7 +11,8 @@
    Every decision of the machine is taken on ADDRESSES only.  Pointers additionally carry a ghost tag [pl]: the logical id
    (allocation number) of the node incarnation the pointer denoted when it was written / read; [r_own] maps an address to the
    logical id of its current incarnation.  Ghost data (pl, r_lid, r_own, rg_enq, rg_deq, the g of the Rm pcs) is never inspected
-   by a step to decide anything (rstep_erasure in LfqReclaimProofs.v).  On a successful hazard validation (`if (tail != q->tail)
+   by a step to decide anything: every `if` of rstep tests pa / addresses / list lengths only (by inspection; the M3 replay compares
+   addresses, pool, slots and retired lists, never the ghost).  On a successful hazard validation (`if (tail != q->tail)
    continue;` falls through) the thread's ghost tag becomes that of the shared pointer it compared equal to: from there on the
    thread's pointer denotes that incarnation, which its hazard slot protects.
 
